@@ -26,7 +26,11 @@ Sigs == {"valid", "over_other", "other_key", "pkcs1", "sha384", "garbage", "abse
 \* signature scheme than RSA-PSS/SHA-256 (the scheme of the *payload* signature is fixed by the
 \* statement, whatever scheme the issuer used on the certificate)
 GenuineCerts == {"genuine", "genuine_pkcs1issued", "genuine_sha384issued"}
-Certs == GenuineCerts \cup {"absent", "garbage", "self_signed_evil", "evil_chain"}
+\* "*_critext": the same certificate carrying a critical extension the verifier does not know.  The
+\* library (crypto/x509) refuses such a certificate before it looks at chain or time, so none of them is
+\* ever accepted; a genuine-root-issued one would satisfy the statement, the other two never do.
+CritExtCerts == {"genuine_critext", "self_signed_evil_critext", "evil_chain_critext"}
+Certs == GenuineCerts \cup {"absent", "garbage", "self_signed_evil", "evil_chain"} \cup CritExtCerts
 \* "emptyfile": the caller's root set is empty and given as a zero-length file to the CLI, while the
 \* default root is downloadable: the caller still trusts nothing
 Roots == {"nil", "empty", "emptyfile", "R", "foreign", "R_and_foreign"}
@@ -43,8 +47,9 @@ Rows == [payload : Payloads, sig : Sigs, cert : Certs, roots : Roots, time : Tim
 
 \* the declarative property
 SigOK(r) == r.sig = "valid" /\ r.payload # "unparseable"
-Chains(r) == r.cert \in GenuineCerts /\ r.roots \in {"R", "R_and_foreign"} /\ r.time \in {"nb", "inside", "na"}
-Authentic(r) == SigOK(r) /\ Chains(r)
+RootsAndTime(r) == r.roots \in {"R", "R_and_foreign"} /\ r.time \in {"nb", "inside", "na"}
+Chains(r) == r.cert \in GenuineCerts /\ RootsAndTime(r)                  \* what the verifier lets through
+Authentic(r) == SigOK(r) /\ r.cert \in GenuineCerts \cup {"genuine_critext"} /\ RootsAndTime(r)   \* the statement
 
 Init == row \in Rows /\ stage = "entry" /\ result = "none"
 
@@ -96,7 +101,7 @@ C01_Authentic == result = "accept" => Authentic(row)
 \* nothing of the payload other than timestamp / provenance is trusted before the signature check
 C01_SigBeforeContent == stage = "rest" => Authentic(row)
 \* completeness on these rows (drift oracle): authentic rows with provenance are accepted
-C01_Complete == stage = "done" /\ Authentic(row) /\ row.prov # "new_none" => result = "accept"
+C01_Complete == stage = "done" /\ Authentic(row) /\ row.cert \in GenuineCerts /\ row.prov # "new_none" => result = "accept"
 
 Emit == stage = "done" => PrintT(<<"VCASE", ToJson([row |-> row, result |-> result])>>)
 =============================================================================
